@@ -19,7 +19,7 @@ import (
 func noEffectCallee(name string) bool {
 	for _, p := range []string{
 		"/common/log.", "fmt.", "(*strings.Builder)", "strings.", "strconv.", "errors.New", "/metrics.", "(*github.com/rcrowley/go-metrics",
-		"(github.com/rcrowley/go-metrics", "time.Now", "time.Since", "(time.Time).", "(time.Duration).", "runtime.", "os.Getenv",
+		"(github.com/rcrowley/go-metrics", "time.Now", "time.Since", "(time.Time).", "(time.Duration).", "runtime.", "os.Getenv", "rcrowley/go-metrics", "regexp.", "(*regexp.Regexp)", "encoding/json.Marshal",
 		"encoding/hex.", "/common/hexutil.Encode", "unicode", "math/rand.", "sync/atomic.Load", "(*sync.WaitGroup)", "reflect.TypeOf",
 		"(reflect.Type)", "(*reflect.rtype)", "sort.Search", "bytes.Compare", "bytes.Equal", "bytes.HasPrefix", "math.Ceil", "math.Floor",
 		"/common.ToHex", "/common.Bytes2Hex", "/common.FromHex", "/common.BytesToAddress", "/common.BytesToHash", "/common.HexToAddress", "/common.HexToHash",
